@@ -204,6 +204,23 @@ def gen_generate(chk, cases, pools, made):
                         made.append((len(cases), ins2, out2, False))
                     cases.append((gline(n, bm2, ins2, out2, idx, ik, ok), cls))
 
+    # systematic: an input tag IDENTICAL to the output tag at every position (selected or not, before or after the first
+    # n_used positions), with a legitimate designated input elsewhere: generation must refuse
+    for n in range(2, chk.scale(6, 8)):
+        for k in range(1, n + 1):
+            for e in range(n):
+                used = subsets_k(r, n, k); bm = bitmap(n, used)
+                sign_at = r.choice(used)
+                asset_of = [1 + i for i in range(n)]; asset_of[sign_at] = 0
+                bi = [r.below(nb) for _ in range(n)]; bo = r.below(nb)
+                ins = [pools.eph(asset_of[i], bi[i]) for i in range(n)]; out = pools.eph(0, bo)
+                if out is None or any(t is None for t in ins): continue
+                ins2 = list(ins); ins2[e] = out
+                cls = 'generate_input_equals_output_at_%s_%s' % ('selected' if e in used else 'unselected', 'low' if e < k else 'high')
+                cases.append((gline(n, bm, ins2, out, sign_at, pools.blind(bi[sign_at]), pools.blind(bo)), cls))
+                if e == sign_at:      # the designated input itself equals the output: key difference is zero
+                    cases.append((gline(n, bm, ins2, out, sign_at, pools.blind(bo), pools.blind(bo)), cls))
+
 # ------------------------------------------------------------------ stage 1d: proofs crafted by the Python prover
 def gen_crafted(chk, cases, pools, expect):
     r = chk.rng
